@@ -557,6 +557,30 @@ static void verify_peer_cert(struct xcm_socket *s)
     }
 }
 
+/* OpenSSL may report the handshake as completed even though writing
+   the last flight (e.g., the TLS 1.3 session tickets) failed. The
+   failure has left the BTCP connection closed or bad, and must be
+   reflected in the BTLS connection state, or later calls will report
+   inconsistent results. */
+static void check_lower_layer(struct xcm_socket *s)
+{
+    struct btls_socket *bts = TOBTLS(s);
+
+    UT_SAVE_ERRNO;
+    int rc = xcm_tp_socket_finish(bts->btcp_socket);
+    UT_RESTORE_ERRNO(finish_errno);
+
+    if (rc == 0 || finish_errno == EAGAIN)
+	return;
+
+    if (finish_errno == EPIPE)
+	BTLS_SET_STATE(s, conn_state_closed);
+    else {
+	BTLS_SET_STATE(s, conn_state_bad);
+	bts->conn.badness_reason = finish_errno;
+    }
+}
+
 static void try_finish_tls_handshake(struct xcm_socket *s)
 {
     struct btls_socket *bts = TOBTLS(s);
@@ -582,7 +606,10 @@ static void try_finish_tls_handshake(struct xcm_socket *s)
 
 	if (bts->tls_auth)
 	    verify_peer_cert(s);
-	
+
+	if (bts->conn.state == conn_state_ready)
+	    check_lower_layer(s);
+
 	if (bts->conn.state == conn_state_ready)
 	    LOG_TLS_CONN_ESTABLISHED(s);
     }
